@@ -118,6 +118,7 @@ func honestNrOp(kp *KeyPair, tree T, ctx, nonce *big.Int, class, label string) O
 }
 
 func genC11(g *Rng, tier string, emit func(Op)) {
+	emit(installedWitnessCopyOp(g, fixedKey("k1024a", true)))
 	for _, o := range highIndexSplitOps(g, fixedKey("k1024a", true), "C11/split-at-high-index") {
 		emit(o)
 	}
@@ -387,6 +388,8 @@ func emitNonrevAttacks(g *Rng, kp *KeyPair, ir *issuerRev, cred *gabi.Credential
 				nr[name] = nil
 			}
 			emit(nrOp(kp, t2, ctx, nonce, "nr-member-"+how, "reject|decode-error").with("fkey", "C11/nr-member-missing"))
+			emit(Op{"op": "verifyD-with-challenge", "class": "entry-with-challenge-nr-member-" + how, "label": "reject|decode-error", "nomodel": true, "fkey": "C08/entry-with-challenge",
+				"key": kp.id, "proof": cloneTree(t2)})
 		}
 	}
 	if rs, ok := tree["nonrev_proof"].(T)["responses"].(T); ok {
@@ -397,6 +400,8 @@ func emitNonrevAttacks(g *Rng, kp *KeyPair, ir *issuerRev, cred *gabi.Credential
 			t3 := cloneTree(tree).(T)
 			delete(t3["nonrev_proof"].(T)["responses"].(T), k)
 			emit(nrOp(kp, t3, ctx, nonce, "nr-response-absent", "reject|decode-error").with("fkey", "C11/nr-member-missing"))
+			emit(Op{"op": "verifyD-with-challenge", "class": "entry-with-challenge-nr-response-absent", "label": "reject|decode-error", "nomodel": true, "fkey": "C08/entry-with-challenge",
+				"key": kp.id, "proof": cloneTree(t3)})
 		}
 	}
 	// the prover-chosen group elements moved by multiples of the modulus: the same residue, another
